@@ -29,6 +29,8 @@ func vSymStmt(i int, kinds int) vStmt {
 	s := vStmt{t: symInt64("t" + is), b: symInt64("b" + is), c: symInt64("c" + is)}
 	if shape := symParam("shape", 0); shape == 1 {
 		s.kind = []int{vINS, vUPD, vUPD, vDEL}[i%4] // two updates, then a delete with an arbitrary write time
+	} else if shape == 2 {
+		s.kind = []int{vINS, vUPD, vDEL, vINS}[i%4] // update, delete, re-insert with arbitrary write times
 	} else {
 		s.kind = symChoice("kind"+is, kinds)
 	}
